@@ -3,6 +3,7 @@ package props
 import (
 	"encoding/json"
 	"fmt"
+	"os"
 	"sort"
 	"strings"
 	"sync"
@@ -19,7 +20,7 @@ import (
 // ends return the same clients, subscriptions, retained messages, in-flight messages and
 // system info when the stored state is read back, up to ordering.
 //
-// E1: every sequence of length <= 3 (quick) / <= 4 (thorough) over the 37 event symbols
+// E1: every sequence of length <= 3 (quick) / <= 4 (thorough) over the 39 event symbols
 // below is applied DIRECTLY to the four real hook objects (no broker); after every event
 // the five Stored*() results of the four back ends are normalised (sorted; empty == nil;
 // the storage-key field ID compared modulo the back end's own key prefix) and compared.
@@ -40,8 +41,12 @@ import (
 //
 // Symbols (client ids {a, a:b} x filters/topics {c, b:c} x packet ids {1, 11}):
 //   est:<id> disc1:<id> (expire) disc0:<id> (keep) sub:<id>:<f> unsub:<id>:<f>
-//   rset:<t> rclr:<t> qpub:<id>:<pid> qcomp:<id>:<pid> qdrop:<id>:<pid>
+//   rset:<t> rclr:<t> rnop:<t> qpub:<id>:<pid> qcomp:<id>:<pid> qdrop:<id>:<pid>
 //   cexp:<id> rexp:<t> will:<id> tick
+// The three retain symbols are the three results of TopicsIndex.RetainMessage the broker
+// passes to OnRetainMessage: rset = payload, r=1 (retained message set); rclr = empty
+// payload, r=-1 (an existing retained message cleared); rnop = empty payload, r=0 (empty
+// retained publish to a topic that holds no retained message: nothing was cleared).
 
 var c22IDs = []string{"a", "a:b"}
 var c22Names = []string{"c", "b:c"}
@@ -61,7 +66,7 @@ func c22Symbols() []string {
 			}
 		}
 	}
-	for _, k := range []string{"rset", "rclr", "rexp"} {
+	for _, k := range []string{"rset", "rclr", "rnop", "rexp"} {
 		for _, t := range c22Names {
 			out = append(out, k+"|"+t)
 		}
@@ -148,8 +153,8 @@ func (e *c22Env) reset() error {
 }
 
 // c22Apply applies one event to one hook. n = number of earlier occurrences of the same
-// symbol in the sequence: the n-th repetition of a WRITE (sub, rset, qpub) carries other
-// content than the first (subscription identifier 3+n; retained payload / content type
+// symbol in the sequence: the n-th repetition of a WRITE (sub, rset, rnop, qpub) carries other
+// content than the first (subscription identifier 3+n; retained payload (rset) / content type
 // suffixed with n; in-flight: the first write is the PUBLISH, every later write of the same
 // client:packet-id key is the PUBREL of the QoS 2 outbound flow with Sent advanced by n),
 // so that the versions of a record written several times are distinguishable when read back.
@@ -170,7 +175,7 @@ func c22Apply(h mqtt.Hook, cl map[string]*mqtt.Client, sym string, n int) {
 		h.OnSubscribed(cl[f[1]], packets.Packet{Filters: packets.Subscriptions{{Filter: f[2], Qos: 2, Identifier: 3 + n, RetainHandling: 1, RetainAsPublished: true, NoLocal: true}}}, []byte{1})
 	case "unsub":
 		h.OnUnsubscribed(cl[f[1]], packets.Packet{Filters: packets.Subscriptions{{Filter: f[2]}}})
-	case "rset", "rclr":
+	case "rset", "rclr", "rnop":
 		r := int64(1)
 		pk := packets.Packet{FixedHeader: packets.FixedHeader{Type: packets.Publish, Retain: true, Qos: 1}, TopicName: f[1], Payload: []byte("p-" + f[1]), Created: 1000, Origin: "a",
 			Properties: packets.Properties{MessageExpiryInterval: 30, ContentType: "ct", ResponseTopic: "rt", CorrelationData: []byte("cd"), PayloadFormat: 1, PayloadFormatFlag: true,
@@ -178,6 +183,12 @@ func c22Apply(h mqtt.Hook, cl map[string]*mqtt.Client, sym string, n int) {
 		if f[0] == "rclr" {
 			r = -1
 			pk.Payload = nil
+		} else if f[0] == "rnop" {
+			r = 0
+			pk.Payload = nil
+			if n > 0 {
+				pk.Properties.ContentType = fmt.Sprintf("ct%d", n)
+			}
 		} else if n > 0 {
 			pk.Payload = []byte(fmt.Sprintf("p-%s-%d", f[1], n))
 			pk.Properties.ContentType = fmt.Sprintf("ct%d", n)
@@ -376,7 +387,7 @@ func c22Key(sym string) string {
 		return "client/" + f[1]
 	case "sub", "unsub":
 		return "sub/" + f[1] + ":" + f[2] // as the hooks spell it: ("a:b","c") and ("a","b:c") are one record
-	case "rset", "rclr", "rexp":
+	case "rset", "rclr", "rnop", "rexp":
 		return "retained/" + f[1]
 	case "qpub", "qcomp", "qdrop":
 		return "inflight/" + f[1] + ":" + f[2]
@@ -487,8 +498,12 @@ func init() {
 			second bool // the sequence was already judged live in an earlier phase
 		}
 		var phases [4][]work
+		only := os.Getenv("VERIF_SCEN") // e.g. VERIF_SCEN=rnop: only the sequences that contain that text
 		for i := 0; i < total; i++ {
 			seq := decode(i)
+			if only != "" && !strings.Contains(strings.Join(seq, " "), only) {
+				continue
+			}
 			cl := c22ReopenClass(seq)
 			switch {
 			case cl == 0:
@@ -616,7 +631,7 @@ func init() {
 		}
 		c.Rep.Count("sequences_followed_by_reopen_of_all_stores", reopened)
 		c.Rep.Count("reopened_with_inflight_key_written_more_than_once", collisions)
-		if reopened > 0 && collisions == 0 && done {
+		if reopened > 0 && collisions == 0 && done && fullRun() {
 			c.Rep.Add(explore.Violation{Key: "internal:c22-vacuous-reopen", Msg: "no reopened sequence wrote an in-flight key twice"})
 		}
 		c.Rep.Count("evaluations", evals)
